@@ -256,6 +256,12 @@ static void sc_window_many(void) {
   for (int i = 0; i < 70; i++) (void)mzd_init_window(A, i, 64, 150, 250);
   fh_end();
 }
+static void sc_window_spill(void) { /* beyond 17 * 64 live headers: plain m4ri_mm_malloc per header */
+  mzd_t *A = rnd(20, 300);
+  fh_begin();
+  for (int i = 0; i < 1200; i++) (void)mzd_init_window(A, i % 20, 64, 20, 250);
+  fh_end();
+}
 static void sc_mzp_init(void) {
   fh_begin();
   mzp_t *P = mzp_init(300);
@@ -664,7 +670,7 @@ typedef struct {
 } scenario_t;
 #define S(n) {#n, sc_##n}
 static const scenario_t scenarios[] = {
-    S(init), S(init_cached), S(init_many), S(window), S(window_many), S(mzp_init), S(mzp_init_window), S(mzp_copy),
+    S(init), S(init_cached), S(init_many), S(window), S(window_many), S(window_spill), S(mzp_init), S(mzp_init_window), S(mzp_copy),
     S(ple_table_init), S(build_all_codes), S(heap), S(djb_queue),
     S(mul_naive), S(addmul_naive), S(mul_m4rm), S(addmul_m4rm), S(mul_m4rm_k4), S(mul), S(mul_odd), S(addmul), S(sqr),
 #if __M4RI_HAVE_OPENMP
